@@ -51,6 +51,7 @@ VARIABLES
   keysSeen,                   \* keys written or deleted so far
   begunN, runN,               \* key -> number of Sets and Dels begun so far / in progress
   exitDue,                    \* key -> {<<value, begunN at DelBegin>>}: values a completed Del obliges to have exited
+  settled,                    \* values that had exited by the last quiescent snapshot (no longer accounted for sure)
   iterSnap,                   \* client -> time of its IterBegin
   pendRej,                    \* hashes whose rejection by the policy still awaits its OnReject callback
   mcOpen, mcN,                \* UpdateMaxCost calls in progress / begun so far
@@ -62,7 +63,7 @@ VARIABLES
 
 vars == <<l, tid, cfg, bad, vkey, vcost, vttl, vtb, vte, accepted, refused, exitN, evictN, rejectN,
           exitedAt, pendCb, getSnap, ended, delBefore, cand, waitCov, dead, owed, inClear, clearEver,
-          closed, openCalls, getsN, dropsN, getsAll, raised, maxMax, keysSeen, begunN, runN, exitDue, iterSnap, pendRej, mcOpen, mcN, clrDirty, clrN, lateAdd, lastEv, polCur>>
+          closed, openCalls, getsN, dropsN, getsAll, raised, maxMax, keysSeen, begunN, runN, exitDue, settled, iterSnap, pendRej, mcOpen, mcN, clrDirty, clrN, lateAdd, lastEv, polCur>>
 
 Empty == <<>>                                  \* the empty function
 Get0(f, x) == IF x \in DOMAIN f THEN f[x] ELSE 0
@@ -82,7 +83,7 @@ Init ==
   /\ exitedAt = {} /\ pendCb = Empty /\ getSnap = Empty /\ ended = Empty /\ delBefore = Empty
   /\ cand = Empty /\ waitCov = Empty /\ dead = Empty /\ owed = Empty /\ inClear = 0
   /\ clearEver = FALSE /\ closed = FALSE /\ openCalls = 0 /\ getsN = 0 /\ dropsN = 0 /\ getsAll = 0
-  /\ raised = FALSE /\ maxMax = 0 /\ keysSeen = {} /\ begunN = Empty /\ runN = Empty /\ exitDue = Empty /\ iterSnap = Empty /\ pendRej = {} /\ mcOpen = 0 /\ mcN = 0 /\ clrDirty = FALSE /\ clrN = 0 /\ lateAdd = {} /\ lastEv = "none" /\ polCur = NoPol
+  /\ raised = FALSE /\ maxMax = 0 /\ keysSeen = {} /\ begunN = Empty /\ runN = Empty /\ exitDue = Empty /\ settled = {} /\ iterSnap = Empty /\ pendRej = {} /\ mcOpen = 0 /\ mcN = 0 /\ clrDirty = FALSE /\ clrN = 0 /\ lateAdd = {} /\ lastEv = "none" /\ polCur = NoPol
 
 \* effective cost of a value as the policy sees it
 EffC(cost) == IF cost = 0 /\ cfg.costFn # 0 THEN cfg.costFn ELSE cost
@@ -99,7 +100,7 @@ Reset(e) ==
   /\ exitedAt' = {} /\ pendCb' = Empty /\ getSnap' = Empty /\ ended' = Empty /\ delBefore' = Empty
   /\ cand' = Empty /\ waitCov' = Empty /\ dead' = Empty /\ owed' = Empty /\ inClear' = 0
   /\ clearEver' = FALSE /\ closed' = FALSE /\ openCalls' = 0 /\ getsN' = 0 /\ dropsN' = 0 /\ getsAll' = 0
-  /\ raised' = FALSE /\ maxMax' = e.maxCost /\ keysSeen' = {} /\ begunN' = Empty /\ runN' = Empty /\ exitDue' = Empty /\ iterSnap' = Empty /\ pendRej' = {} /\ mcOpen' = 0 /\ mcN' = 0 /\ clrDirty' = FALSE /\ clrN' = 0 /\ lateAdd' = {} /\ polCur' = NoPol
+  /\ raised' = FALSE /\ maxMax' = e.maxCost /\ keysSeen' = {} /\ begunN' = Empty /\ runN' = Empty /\ exitDue' = Empty /\ settled' = {} /\ iterSnap' = Empty /\ pendRej' = {} /\ mcOpen' = 0 /\ mcN' = 0 /\ clrDirty' = FALSE /\ clrN' = 0 /\ lateAdd' = {} /\ polCur' = NoPol
   \* pending callbacks of the previous trace must have been completed
   /\ bad' = bad \cup Flag("C04", \A g \in DOMAIN pendCb : pendCb[g] = 0, "OnEvict/OnReject not followed by OnExit of the same value")
 
@@ -120,13 +121,16 @@ Step(e) ==
          /\ begunN' = Put(begunN, e.k, Get0(begunN, e.k) + 1) /\ runN' = Put(runN, e.k, Get0(runN, e.k) + 1)
          \* a cost-raising overwrite: an earlier Set of the key carried a lower cost, or a Set of the key that is
          \* still in progress (and may be applied after this one) carries a higher cost
-         /\ raised' = (raised \/ \E u \in DOMAIN vkey : vkey[u] = e.k /\
+         \* (a value that had exited by the last drained snapshot, or that was removed by eviction/expiry - where the
+         \* accounting is dropped before the callback - is certainly not accounted any more)
+         /\ raised' = (raised \/ \E u \in DOMAIN vkey : vkey[u] = e.k /\ u \notin settled /\
+                                     ~(u \in exitedAt /\ Get0(evictN, u) > 0) /\
                                      (EffC(vcost[u]) < EffC(e.cost) \/ (EffC(vcost[u]) > EffC(e.cost) /\ vte[u] < 0)))
          /\ openCalls' = openCalls + 1
          /\ clearEver' = (clearEver \/ inClear > 0)
          /\ UNCHANGED <<tid, cfg, bad, accepted, refused, exitN, evictN, rejectN, exitedAt, pendCb, getSnap, 
                  ended, delBefore, cand, waitCov, dead, owed, inClear, closed, getsN, dropsN, getsAll, 
-                 maxMax, exitDue, iterSnap, pendRej, mcOpen, mcN, clrN, lateAdd, polCur>>
+                 maxMax, exitDue, settled, iterSnap, pendRej, mcOpen, mcN, clrN, lateAdd, polCur>>
 
     [] e.ev = "SetEnd" ->
          /\ vte' = Put(vte, e.v, e.t)
@@ -142,8 +146,8 @@ Step(e) ==
                        \cup Flag("C15", ~closed \/ ~e.ok, "Set on a closed cache returned true")
          /\ UNCHANGED <<tid, cfg, vkey, vcost, vttl, vtb, exitN, evictN, rejectN, exitedAt, pendCb, getSnap, 
                  delBefore, cand, waitCov, dead, owed, inClear, clearEver, closed, getsN, getsAll, raised, 
-                 maxMax, keysSeen, begunN, exitDue, iterSnap, pendRej, mcOpen, mcN, clrDirty, clrN, 
-                 lateAdd, polCur>>
+                 maxMax, keysSeen, begunN, exitDue, settled, iterSnap, pendRej, mcOpen, mcN, clrDirty, 
+                 clrN, lateAdd, polCur>>
 
     [] e.ev = "DelBegin" ->
          /\ clrDirty' = (clrDirty \/ inClear > 0)
@@ -157,8 +161,8 @@ Step(e) ==
          /\ clearEver' = (clearEver \/ inClear > 0)
          /\ UNCHANGED <<tid, cfg, bad, vkey, vcost, vttl, vtb, vte, accepted, refused, exitN, evictN, rejectN, 
                  exitedAt, pendCb, getSnap, ended, cand, waitCov, dead, owed, inClear, closed, getsN, 
-                 dropsN, getsAll, raised, maxMax, exitDue, iterSnap, pendRej, mcOpen, mcN, clrN, lateAdd, 
-                 polCur>>
+                 dropsN, getsAll, raised, maxMax, exitDue, settled, iterSnap, pendRej, mcOpen, mcN, clrN, 
+                 lateAdd, polCur>>
 
     [] e.ev = "DelEnd" ->
          \* a Del that overlapped a Clear creates no obligation (Clear is not atomic w.r.t. other calls)
@@ -170,8 +174,8 @@ Step(e) ==
          /\ openCalls' = openCalls - 1
          /\ UNCHANGED <<tid, cfg, bad, vkey, vcost, vttl, vtb, vte, accepted, refused, exitN, evictN, rejectN, 
                  exitedAt, pendCb, getSnap, ended, delBefore, waitCov, dead, owed, inClear, clearEver, 
-                 closed, getsN, dropsN, getsAll, raised, maxMax, keysSeen, begunN, iterSnap, pendRej, 
-                 mcOpen, mcN, clrDirty, clrN, lateAdd, polCur>>
+                 closed, getsN, dropsN, getsAll, raised, maxMax, keysSeen, begunN, settled, iterSnap, 
+                 pendRej, mcOpen, mcN, clrDirty, clrN, lateAdd, polCur>>
 
     [] e.ev = "WaitBegin" ->
          /\ clrDirty' = (clrDirty \/ inClear > 0)
@@ -180,8 +184,8 @@ Step(e) ==
          /\ clearEver' = (clearEver \/ inClear > 0)
          /\ UNCHANGED <<tid, cfg, bad, vkey, vcost, vttl, vtb, vte, accepted, refused, exitN, evictN, rejectN, 
                  exitedAt, pendCb, getSnap, ended, delBefore, cand, dead, owed, inClear, closed, getsN, 
-                 dropsN, getsAll, raised, maxMax, keysSeen, begunN, runN, exitDue, iterSnap, pendRej, 
-                 mcOpen, mcN, clrN, lateAdd, polCur>>
+                 dropsN, getsAll, raised, maxMax, keysSeen, begunN, runN, exitDue, settled, iterSnap, 
+                 pendRej, mcOpen, mcN, clrN, lateAdd, polCur>>
 
     [] e.ev = "WaitEnd" ->
          \* a Wait that overlapped a Clear may have been released by Clear's drain: no guarantee then
@@ -200,7 +204,7 @@ Step(e) ==
                                    THEN "F9" ELSE "")
          /\ UNCHANGED <<tid, cfg, vkey, vcost, vttl, vtb, vte, accepted, refused, exitN, evictN, rejectN, 
                  exitedAt, pendCb, getSnap, ended, delBefore, cand, waitCov, owed, inClear, clearEver, 
-                 closed, getsN, dropsN, getsAll, raised, maxMax, keysSeen, begunN, runN, exitDue, 
+                 closed, getsN, dropsN, getsAll, raised, maxMax, keysSeen, begunN, runN, exitDue, settled, 
                  iterSnap, pendRej, mcOpen, mcN, clrDirty, clrN, lateAdd, polCur>>
 
     [] e.ev = "GetBegin" ->
@@ -210,8 +214,8 @@ Step(e) ==
          /\ clearEver' = (clearEver \/ inClear > 0)
          /\ UNCHANGED <<tid, cfg, bad, vkey, vcost, vttl, vtb, vte, accepted, refused, exitN, evictN, rejectN, 
                  exitedAt, pendCb, ended, delBefore, cand, waitCov, dead, owed, inClear, closed, getsN, 
-                 dropsN, getsAll, raised, maxMax, keysSeen, begunN, runN, exitDue, iterSnap, pendRej, 
-                 mcOpen, mcN, clrN, lateAdd, polCur>>
+                 dropsN, getsAll, raised, maxMax, keysSeen, begunN, runN, exitDue, settled, iterSnap, 
+                 pendRej, mcOpen, mcN, clrN, lateAdd, polCur>>
 
     [] e.ev = "GetEnd" ->
          LET s == getSnap[e.c]  v == e.v IN
@@ -231,15 +235,15 @@ Step(e) ==
               \cup Flag("C15", ~closed \/ ~e.found, "Get on a closed cache returned a value")
          /\ UNCHANGED <<tid, cfg, vkey, vcost, vttl, vtb, vte, accepted, refused, exitN, evictN, rejectN, 
                  exitedAt, pendCb, getSnap, ended, delBefore, cand, waitCov, dead, owed, inClear, 
-                 clearEver, closed, dropsN, raised, maxMax, keysSeen, begunN, runN, exitDue, iterSnap, 
-                 pendRej, mcOpen, mcN, clrDirty, clrN, lateAdd, polCur>>
+                 clearEver, closed, dropsN, raised, maxMax, keysSeen, begunN, runN, exitDue, settled, 
+                 iterSnap, pendRej, mcOpen, mcN, clrDirty, clrN, lateAdd, polCur>>
 
     [] e.ev = "TTLBegin" ->
          /\ openCalls' = openCalls + 1
          /\ UNCHANGED <<tid, cfg, bad, vkey, vcost, vttl, vtb, vte, accepted, refused, exitN, evictN, rejectN, 
                  exitedAt, pendCb, getSnap, ended, delBefore, cand, waitCov, dead, owed, inClear, 
                  clearEver, closed, getsN, dropsN, getsAll, raised, maxMax, keysSeen, begunN, runN, 
-                 exitDue, iterSnap, pendRej, mcOpen, mcN, clrDirty, clrN, lateAdd, polCur>>
+                 exitDue, settled, iterSnap, pendRej, mcOpen, mcN, clrDirty, clrN, lateAdd, polCur>>
 
     [] e.ev = "TTLEnd" ->
          /\ openCalls' = openCalls - 1
@@ -250,7 +254,7 @@ Step(e) ==
          /\ UNCHANGED <<tid, cfg, vkey, vcost, vttl, vtb, vte, accepted, refused, exitN, evictN, rejectN, 
                  exitedAt, pendCb, getSnap, ended, delBefore, cand, waitCov, dead, owed, inClear, 
                  clearEver, closed, getsN, dropsN, getsAll, raised, maxMax, keysSeen, begunN, runN, 
-                 exitDue, iterSnap, pendRej, mcOpen, mcN, clrDirty, clrN, lateAdd, polCur>>
+                 exitDue, settled, iterSnap, pendRej, mcOpen, mcN, clrDirty, clrN, lateAdd, polCur>>
 
     [] e.ev = "IterBegin" ->
          /\ openCalls' = openCalls + 1
@@ -258,7 +262,7 @@ Step(e) ==
          /\ UNCHANGED <<tid, cfg, bad, vkey, vcost, vttl, vtb, vte, accepted, refused, exitN, evictN, rejectN, 
                  exitedAt, pendCb, getSnap, ended, delBefore, cand, waitCov, dead, owed, inClear, 
                  clearEver, closed, getsN, dropsN, getsAll, raised, maxMax, keysSeen, begunN, runN, 
-                 exitDue, pendRej, mcOpen, mcN, clrDirty, clrN, lateAdd, polCur>>
+                 exitDue, settled, pendRej, mcOpen, mcN, clrDirty, clrN, lateAdd, polCur>>
 
     [] e.ev = "IterEnd" ->
          /\ openCalls' = openCalls - 1
@@ -273,14 +277,14 @@ Step(e) ==
          /\ UNCHANGED <<tid, cfg, vkey, vcost, vttl, vtb, vte, accepted, refused, exitN, evictN, rejectN, 
                  exitedAt, pendCb, getSnap, ended, delBefore, cand, waitCov, dead, owed, inClear, 
                  clearEver, closed, getsN, dropsN, getsAll, raised, maxMax, keysSeen, begunN, runN, 
-                 exitDue, iterSnap, pendRej, mcOpen, mcN, clrDirty, clrN, lateAdd, polCur>>
+                 exitDue, settled, iterSnap, pendRej, mcOpen, mcN, clrDirty, clrN, lateAdd, polCur>>
 
     [] e.ev = "MaxCostBegin" ->
          /\ mcOpen' = mcOpen + 1 /\ mcN' = mcN + 1
          /\ UNCHANGED <<tid, cfg, bad, vkey, vcost, vttl, vtb, vte, accepted, refused, exitN, evictN, rejectN, 
                  exitedAt, pendCb, getSnap, ended, delBefore, cand, waitCov, dead, owed, inClear, 
                  clearEver, closed, openCalls, getsN, dropsN, getsAll, raised, maxMax, keysSeen, begunN, 
-                 runN, exitDue, iterSnap, pendRej, clrDirty, clrN, lateAdd, polCur>>
+                 runN, exitDue, settled, iterSnap, pendRej, clrDirty, clrN, lateAdd, polCur>>
 
     [] e.ev = "MaxCost" ->
          /\ mcOpen' = mcOpen - 1
@@ -289,7 +293,7 @@ Step(e) ==
          /\ UNCHANGED <<tid, cfg, bad, vkey, vcost, vttl, vtb, vte, accepted, refused, exitN, evictN, rejectN, 
                  exitedAt, pendCb, getSnap, ended, delBefore, cand, waitCov, dead, owed, inClear, 
                  clearEver, closed, openCalls, getsN, dropsN, getsAll, keysSeen, begunN, runN, exitDue, 
-                 iterSnap, pendRej, mcN, clrDirty, clrN, lateAdd, polCur>>
+                 settled, iterSnap, pendRej, mcN, clrDirty, clrN, lateAdd, polCur>>
 
     [] e.ev \in {"ClearBegin", "CloseBegin"} ->
          /\ owed' = Put(owed, e.c, {v \in accepted : Get0(exitN, v) = 0})
@@ -299,8 +303,8 @@ Step(e) ==
          /\ openCalls' = openCalls + 1
          /\ UNCHANGED <<tid, cfg, bad, vkey, vcost, vttl, vtb, vte, accepted, refused, exitN, evictN, rejectN, 
                  exitedAt, pendCb, getSnap, ended, delBefore, cand, waitCov, dead, closed, getsN, dropsN, 
-                 getsAll, raised, maxMax, keysSeen, begunN, runN, exitDue, iterSnap, pendRej, mcOpen, mcN, 
-                 lateAdd, polCur>>
+                 getsAll, raised, maxMax, keysSeen, begunN, runN, exitDue, settled, iterSnap, pendRej, 
+                 mcOpen, mcN, lateAdd, polCur>>
 
     [] e.ev \in {"ClearEnd", "CloseEnd"} ->
          /\ inClear' = inClear - 1 /\ clrN' = clrN + 1
@@ -322,8 +326,8 @@ Step(e) ==
                                    THEN "F9" ELSE "")
          /\ UNCHANGED <<tid, cfg, vkey, vcost, vttl, vtb, vte, accepted, refused, exitN, evictN, rejectN, 
                  exitedAt, pendCb, getSnap, ended, delBefore, cand, waitCov, dead, owed, clearEver, 
-                 getsAll, raised, maxMax, keysSeen, begunN, runN, exitDue, iterSnap, pendRej, mcOpen, mcN, 
-                 clrDirty, lateAdd, polCur>>
+                 getsAll, raised, maxMax, keysSeen, begunN, runN, exitDue, settled, iterSnap, pendRej, 
+                 mcOpen, mcN, clrDirty, lateAdd, polCur>>
 
     [] e.ev = "Exit" ->
          /\ exitN' = Put(exitN, e.v, Get0(exitN, e.v) + 1)
@@ -334,8 +338,8 @@ Step(e) ==
                        \cup Flag("C04", Get0(pendCb, e.g) \in {0, e.v}, "OnEvict/OnReject not followed by OnExit of the same value")
          /\ UNCHANGED <<tid, cfg, vkey, vcost, vttl, vtb, vte, accepted, refused, evictN, rejectN, getSnap, 
                  ended, delBefore, cand, waitCov, dead, owed, inClear, clearEver, closed, openCalls, 
-                 getsN, dropsN, getsAll, raised, maxMax, keysSeen, begunN, runN, exitDue, iterSnap, 
-                 pendRej, mcOpen, mcN, clrDirty, clrN, lateAdd, polCur>>
+                 getsN, dropsN, getsAll, raised, maxMax, keysSeen, begunN, runN, exitDue, settled, 
+                 iterSnap, pendRej, mcOpen, mcN, clrDirty, clrN, lateAdd, polCur>>
 
     [] e.ev \in {"Evict", "Reject"} ->
          /\ IF e.ev = "Evict" THEN evictN' = Put(evictN, e.v, Get0(evictN, e.v) + 1) /\ UNCHANGED rejectN
@@ -361,13 +365,13 @@ Step(e) ==
                                    THEN "F4" ELSE "")
          /\ UNCHANGED <<tid, cfg, vkey, vcost, vttl, vtb, vte, accepted, refused, exitN, exitedAt, getSnap, 
                  ended, delBefore, cand, waitCov, dead, owed, inClear, clearEver, closed, openCalls, 
-                 getsN, dropsN, getsAll, raised, maxMax, keysSeen, begunN, runN, exitDue, iterSnap, 
-                 mcOpen, mcN, clrDirty, clrN, lateAdd, polCur>>
+                 getsN, dropsN, getsAll, raised, maxMax, keysSeen, begunN, runN, exitDue, settled, 
+                 iterSnap, mcOpen, mcN, clrDirty, clrN, lateAdd, polCur>>
 
     [] e.ev = "Tick" -> UNCHANGED <<tid, cfg, bad, vkey, vcost, vttl, vtb, vte, accepted, refused, exitN, evictN, rejectN, 
                  exitedAt, pendCb, getSnap, ended, delBefore, cand, waitCov, dead, owed, inClear, 
                  clearEver, closed, openCalls, getsN, dropsN, getsAll, raised, maxMax, keysSeen, begunN, 
-                 runN, exitDue, iterSnap, pendRej, mcOpen, mcN, clrDirty, clrN, lateAdd, polCur>>
+                 runN, exitDue, settled, iterSnap, pendRej, mcOpen, mcN, clrDirty, clrN, lateAdd, polCur>>
 
     [] e.ev = "Quiesce" ->
          LET probeVals == {e.probe[i][2] : i \in DOMAIN e.probe} \ {0}
@@ -419,6 +423,7 @@ Step(e) ==
               \cup Flag("C17", ~cfg.metrics \/ clearEver \/ e.metrics.setsDropped = dropsN, "SetsDropped differs from the number of refused new Sets")
               \cup Flag("C17", ~cfg.metrics \/ e.metrics.getsKept + e.metrics.getsDropped <= getsAll, "GetsKept+GetsDropped exceeds the number of Gets")
               \cup Flag("C04", \A g \in DOMAIN pendCb : pendCb[g] = 0, "OnEvict/OnReject not followed by OnExit of the same value")
+         /\ settled' = exitedAt
          /\ UNCHANGED <<tid, cfg, vkey, vcost, vttl, vtb, vte, accepted, refused, exitN, evictN, rejectN, 
                  exitedAt, pendCb, getSnap, ended, delBefore, cand, waitCov, dead, owed, inClear, 
                  clearEver, closed, openCalls, getsN, dropsN, getsAll, raised, maxMax, keysSeen, begunN, 
@@ -443,7 +448,7 @@ Step(e) ==
          /\ UNCHANGED <<tid, cfg, vkey, vcost, vttl, vtb, vte, accepted, refused, exitN, evictN, rejectN, 
                  exitedAt, pendCb, getSnap, ended, delBefore, cand, waitCov, dead, owed, inClear, 
                  clearEver, closed, openCalls, getsN, dropsN, getsAll, raised, maxMax, keysSeen, begunN, 
-                 runN, exitDue, iterSnap, mcOpen, mcN, clrDirty, clrN>>
+                 runN, exitDue, settled, iterSnap, mcOpen, mcN, clrDirty, clrN>>
 
     [] e.ev = "PolEnter" ->    \* white-box, under the policy lock: the state the decision starts from
          /\ bad' = bad \cup Flag("C09", pendRej = {}, "an item turned away by the policy was not reported through OnReject")
@@ -456,7 +461,7 @@ Step(e) ==
          /\ UNCHANGED <<tid, cfg, vkey, vcost, vttl, vtb, vte, accepted, refused, exitN, evictN, rejectN, 
                  exitedAt, pendCb, getSnap, ended, delBefore, cand, waitCov, dead, owed, inClear, 
                  clearEver, closed, openCalls, getsN, dropsN, getsAll, raised, maxMax, keysSeen, begunN, 
-                 runN, exitDue, iterSnap, mcOpen, mcN, clrDirty, clrN, lateAdd>>
+                 runN, exitDue, settled, iterSnap, mcOpen, mcN, clrDirty, clrN, lateAdd>>
 
     [] e.ev = "PolRound" ->    \* white-box, under the policy lock: one sampling round
          LET ests == {e.sample[i][2] : i \in DOMAIN e.sample}
@@ -473,7 +478,7 @@ Step(e) ==
          /\ UNCHANGED <<tid, cfg, vkey, vcost, vttl, vtb, vte, accepted, refused, exitN, evictN, rejectN, 
                  exitedAt, pendCb, getSnap, ended, delBefore, cand, waitCov, dead, owed, inClear, 
                  clearEver, closed, openCalls, getsN, dropsN, getsAll, raised, maxMax, keysSeen, begunN, 
-                 runN, exitDue, iterSnap, pendRej, mcOpen, mcN, clrDirty, clrN, lateAdd>>
+                 runN, exitDue, settled, iterSnap, pendRej, mcOpen, mcN, clrDirty, clrN, lateAdd>>
 
     [] e.ev = "RingCheck" ->   \* the Get-frequency pipeline driven on its own (harness/cache/ring_test.go.txt)
          /\ bad' = bad \cup Flag("C17", e.kept + e.dropped <= e.gets, "GetsKept+GetsDropped exceeds the number of Gets")
@@ -482,7 +487,7 @@ Step(e) ==
          /\ UNCHANGED <<tid, cfg, vkey, vcost, vttl, vtb, vte, accepted, refused, exitN, evictN, rejectN, 
                  exitedAt, pendCb, getSnap, ended, delBefore, cand, waitCov, dead, owed, inClear, 
                  clearEver, closed, openCalls, getsN, dropsN, getsAll, raised, maxMax, keysSeen, begunN, 
-                 runN, exitDue, iterSnap, pendRej, mcOpen, mcN, clrDirty, clrN, lateAdd, polCur>>
+                 runN, exitDue, settled, iterSnap, pendRej, mcOpen, mcN, clrDirty, clrN, lateAdd, polCur>>
 
     [] e.ev \in {"Leak", "Panic", "Hang", "Race"} ->
          /\ bad' = bad \cup Flag("C08", FALSE, e.ev \o ": " \o e.what)
@@ -490,7 +495,7 @@ Step(e) ==
          /\ UNCHANGED <<tid, cfg, vkey, vcost, vttl, vtb, vte, accepted, refused, exitN, evictN, rejectN, 
                  exitedAt, pendCb, getSnap, ended, delBefore, cand, waitCov, dead, owed, inClear, 
                  clearEver, closed, openCalls, getsN, dropsN, getsAll, raised, maxMax, keysSeen, begunN, 
-                 runN, exitDue, iterSnap, pendRej, mcOpen, mcN, clrDirty, clrN, lateAdd, polCur>>
+                 runN, exitDue, settled, iterSnap, pendRej, mcOpen, mcN, clrDirty, clrN, lateAdd, polCur>>
 
 Next == /\ l <= Len(Trace)
         /\ l' = l + 1
